@@ -58,7 +58,9 @@ def parse_printf(fmt, where, letters=False):
             i += 2
             continue
         if c == '%':
-            m = re.match(r'%(\.(\d*))?(l|z|h)?([dcsg])', fmt[i:])
+            m = re.match(r'%(\.(\d*))?(l|z|h)?([dcsgz])', fmt[i:]) if letters else re.match(r'%(\.(\d*))?(l|z|h)?([dcsg])', fmt[i:])
+            if m and letters and m.group(3) == 'z' and m.group(4) != 'd':      # apr's own %z (a size_t), not %zd
+                m = re.match(r'%(\.(\d*))?()(z)', fmt[i:])
             if not m:
                 raise extract.ExtractionError('R22p: conversion at %r in %r (%s)' % (fmt[i:i + 6], fmt, where))
             prec = None if m.group(1) is None else int(m.group(2) or 0)
@@ -69,7 +71,7 @@ def parse_printf(fmt, where, letters=False):
             comment = True
         elif c == ' ':
             out.append(('sep',))
-        elif not comment and c.isalpha() and letters:
+        elif not comment and c.isalnum() and letters:
             out.append(('chr', c))       # a segment letter written as part of the format
         elif not comment:
             raise extract.ExtractionError('R22p: literal %r outside a comment in %r (%s)' % (c, fmt, where))
@@ -77,10 +79,10 @@ def parse_printf(fmt, where, letters=False):
     return out
 
 
-SIZE = {('d', ''): 'sizeof(int)', ('d', 'l'): 'sizeof(long)', ('d', 'z'): 'sizeof(size_t)', ('c', ''): None}
+SIZE = {('d', ''): 'sizeof(int)', ('d', 'l'): 'sizeof(long)', ('d', 'z'): 'sizeof(size_t)', ('c', ''): None, ('z', ''): 'sizeof(size_t)'}
 
 
-def expand(fmt, args, where, letters=False):
+def expand(fmt, args, where, letters=False, libc=True):
     """C statements for one Printf(fmt, args): None when the format takes more arguments than are given"""
     items = parse_printf(fmt, where, letters)
     n = sum(1 for it in items if it[0] == 'conv')
@@ -96,10 +98,14 @@ def expand(fmt, args, where, letters=False):
             _, letter, length, prec, comment = it
             a = args[k]
             k += 1
-            if comment or letter == 's':
-                if not comment:
-                    raise extract.ExtractionError('R22p: %%s outside a comment in %r (%s)' % (fmt, where))
+            if comment:
                 out.append('(void)(%s);' % a)
+            elif letter == 's':
+                if not letters:
+                    raise extract.ExtractionError('R22p: %%s outside a comment in %r (%s)' % (fmt, where))
+                out.append('VP_STR(%s);' % a)      # a name: one string token
+            elif letter == 'g' and not libc:
+                out.append('VP_TOK(%s);' % a)      # apr: every %g / %.<n>g is g_fmt's shortest round-trip form (C03.g_fmt), whatever <n> says
             elif letter == 'g':
                 out.append('__CPROVER_assert(%d >= 17, "a real number of the header is written with enough digits to be read back identically (%%.%sg)"); VP_TOK(%s);'
                            % (prec if prec is not None else 6, '' if prec is None else prec, a))
@@ -137,7 +143,34 @@ def split_args(s):
     return out
 
 
-def translate_printf(body, gl, where, pattern=r'\bnm\.Printf\(', skip=0, letters=False):
+def ternary_literals(f):
+    """c1 ? "A" : c2 ? "B" : "C"  ->  [(c1, A), (c2, B), (None, C)], or None when f is not of that shape"""
+    out = []
+    rest = f.strip()
+    while True:
+        m = re.fullmatch(r'"((?:[^"\\]|\\.)*)"', rest)
+        if m:
+            out.append((None, m.group(1)))
+            return out
+        depth, q = 0, -1
+        for i, ch in enumerate(rest):
+            if ch in '([':
+                depth += 1
+            elif ch in ')]':
+                depth -= 1
+            elif ch == '?' and depth == 0:
+                q = i
+                break
+        if q < 0:
+            return None
+        m = re.match(r'\s*"((?:[^"\\]|\\.)*)"\s*:', rest[q + 1:])
+        if not m:
+            return None
+        out.append((rest[:q].strip(), m.group(1)))
+        rest = rest[q + 1 + m.end():].strip()
+
+
+def translate_printf(body, gl, where, pattern=r'\bnm\.Printf\(', skip=0, letters=False, libc=True):
     """skip: leading arguments that are not part of the format call (the File of apr(nm, fmt, ...))"""
     n, pos, out = 0, 0, ''
     for m in re.finditer(pattern, body):
@@ -160,9 +193,19 @@ def translate_printf(body, gl, where, pattern=r'\bnm\.Printf\(', skip=0, letters
         f, rest = args[0], args[1:]
         lit = re.fullmatch(r'"((?:[^"\\]|\\.)*)"', f)
         if lit:
-            code = expand(lit.group(1), rest, where, letters)
+            code = expand(lit.group(1), rest, where, letters, libc)
             if code is None:
                 raise extract.ExtractionError('R22p: format %s takes more arguments than given (%s)' % (f, where))
+        elif ternary_literals(f):
+            code, close = '', ''
+            for cond, text in ternary_literals(f):
+                c = expand(text, rest, where, letters, libc)
+                if c is None:
+                    raise extract.ExtractionError('R22p: format "%s" takes more arguments than given (%s)' % (text, where))
+                if cond is None:
+                    code += '{ %s }' % c
+                else:
+                    code += 'if (%s) { %s } else ' % (cond, c)
         else:
             # an expression over the gl_* constants (for the local `fmt`: over the constants of its initialiser): switch over the enumerators
             src = f
